@@ -407,6 +407,13 @@ Section Meta.
               (st_e s) (st_g s) (st_geom s) (st_traj s ++ [h])
     else s.
 
+  (* ---- add_hill, as a function of its own: used for the hills received from the other replicas, which are added to
+     the mirror object of their replica (read_replica_files -> read_hill -> push_back + the test on the margin) ---- *)
+  Definition add_hill (c : cfg) (s : state) (h : hill) : state :=
+    mkState (st_old s) (st_new s ++ [h]) (st_off_old s)
+            (if c_use_grids c && near_hill c (st_geom s) h then st_off_new s ++ [h] else st_off_new s)
+            (st_e s) (st_g s) (st_geom s) (st_traj s ++ [h]).
+
   (* ---- update_grid_data: project_hills(new_hills_begin, end) every grids_freq steps ---- *)
 
   Definition project (c : cfg) (s : state) : state :=
@@ -422,7 +429,19 @@ Section Meta.
   Definition update_grid_data (c : cfg) (s : state) (i : step_in) : state :=
     if i_it i mod c_gfreq c =? 0 then project c s else s.
 
+  (* ---- multiple replicas: the mirror object of another replica holds the hills received from it (MAdd) and is
+     projected onto its own grids, of the same geometry, when those of this replica are (MProj, update_grid_data);
+     calc_energy / calc_forces sum over this replica and the mirrors ---- *)
+  Inductive mirror_event := MAdd (h : hill) | MProj.
+  Definition mirror_apply (c : cfg) (s : state) (e : mirror_event) : state :=
+    match e with MAdd h => add_hill c s h | MProj => if c_use_grids c then project c s else s end.
+
   (* ---- colvarbias_meta::update ---- *)
+
+  Definition total_energy (c : cfg) (own : state) (mirrors : list state) (x : list value) : T :=
+    fold_left (fun acc m => nadd O acc (calc_energy c m x)) mirrors (calc_energy c own x).
+  Definition total_force (c : cfg) (own : state) (mirrors : list state) (x : list value) (k j : nat) : T :=
+    fold_left (fun acc m => nadd O acc (nth j (calc_force c m x k) (n0 O))) mirrors (nth j (calc_force c own x k) (n0 O)).
 
   Definition step_state (c : cfg) (s : state) (i : step_in) : state :=
     let s1 := update_grid_params c s (i_x i) in
